@@ -135,6 +135,70 @@ def build():
             "result[keys(T)[i]].start == 0 and result[keys(T)[i]].stop == 0))",
         ], props=["C10"]))
     cs.append(term_slices)
+
+    # get_slice: three of the four identifier variants (a slice passes through; an int selects one column; a Term selects
+    # exactly its term's slice or raises ValueError).  The str variant relies on Term.__eq__/__hash__ against strings (finding D13)
+    # and is decided by the bounded driver.
+    SELF5 = {"__class__": "ModelSpec", "structure": "Seq[ETS]", "term_slices": "Dict[Term,slice]", "column_indices": "Dict[Str,Int]"}
+    from vf.pyvc.engine import PyConst
+
+    G = {"Term": PyConst("Term"), "slice": PyConst("slice")}
+    for label, ty, ens, rz in (
+        ("slice", "slice", ["result == columns_identifier"], {}),
+        ("int", "Int", ["result.start == columns_identifier and result.stop == columns_identifier + 1"], {}),
+        ("Term", "Term", ["result == self.term_slices[columns_identifier]"], {"ValueError": "columns_identifier not in self.term_slices"}),
+    ):
+        c = Contract(MS + "get_slice", params={"self": SELF5, "columns_identifier": ty}, returns="slice", globals=G,
+                     ensures=ens, raises=rz, modifies=[], props=["C10"])
+        c.label = label
+        cs.append(c)
+
+    # subset(): the subset keeps, for every requested term (in the requested order), the parent's structure row of that term,
+    # and NOTHING else of the spec changes -- in particular the recorded encoder/transform state (kinds, levels, statistics) that a
+    # later reuse on other data checks against (C09).  `dataclasses.replace` is modelled natively (record update).
+    from vf.pyvc.engine import MObj
+
+    FORMULA = TObj("SimpleFormula")
+    TERMS_OF = z3.Function("terms_of_formula", FORMULA.sort(), TSeq(TERM).sort())
+
+    def formula_iter(eng, args, kw, n, st):
+        return V(TSeq(TERM), TERMS_OF(args[0].t))
+
+    reg.methods[("SimpleFormula", "__iter__")] = formula_iter
+
+    def n_update(eng, args, kw, n, st):
+        me = args[0]
+        new = MObj(me.cls, dict(me.attrs))
+        for k_, v_ in kw.items():
+            new.attrs[k_] = v_
+        return new
+
+    reg.methods[("ModelSpec", "update")] = n_update
+    restricted = Contract("ModelSpec.__get_restricted_formula", params={"self": "AnyObj", "spec": "FormulaSpec", "kw": "Kw"}, returns=FORMULA, trusted=True,
+                          spec_env={"terms_of": lambda e, a, k, n, s: V(TSeq(TERM), TERMS_OF(a[0].t))},
+                          raises={"ValueError": None},
+                          ensures=["distinct(terms_of(result))",
+                                   "forall(lambda i: implies(0 <= i and i < len(terms_of(result)), exists(lambda j: 0 <= j and j < len(self.structure) and self.structure[j].term == terms_of(result)[i])))"],
+                          notes="Formula.from_spec(spec) restricted to terms of this spec (raises ValueError otherwise); parsing is C01's subject")
+    restricted.kwarg_param = "kw"
+    restricted.defaults = {"kw": V(TObj("Kw"), z3.Const("{}:kw", TObj("Kw").sort()))}
+    reg.methods[("ModelSpec", "_ModelSpec__get_restricted_formula")] = restricted
+    SELF6 = {"__class__": "ModelSpec", "structure": "Seq[ETS]", "formula": FORMULA, "encoder_state": "Dict[Str,EncState]", "transform_state": "Dict[Str,TState]",
+             "materializer": "MatName", "output": "OutputName", "ensure_full_rank": "Bool", "na_action": "NAAction"}
+    sub = Contract(
+        MS + "subset", params={"self": SELF6, "terms_spec": "FormulaSpec", "formula_kwargs": "Kw"},
+        lets={"S": "self.structure"}, requires=[DISTINCT_TERMS], raises={"ValueError": None},
+        local_types={"term_structure": "Dict[Term,ETS]"},
+        ensures=[
+            "result.encoder_state == self.encoder_state and result.transform_state == self.transform_state",
+            "result.materializer == self.materializer and result.output == self.output and result.ensure_full_rank == self.ensure_full_rank "
+            "and result.na_action == self.na_action",
+            # row i of the subset is the parent's row of the i-th requested term (so it keeps that term's scoped terms and column names)
+            "forall(lambda i: implies(0 <= i and i < len(result.structure), result.structure[i].term == list(result.formula)[i] and result.structure[i] in S))",
+            "len(result.structure) == len(list(result.formula))",
+        ], modifies=[], props=["C10", "C09"])
+    sub.kwarg_param = "formula_kwargs"
+    cs.append(sub)
     return reg, cs
 
 
@@ -157,3 +221,7 @@ def run_proofs(ctx):
                "A-dict: dicts iterate in insertion order; keys pairwise distinct",
                "A-alias: distinct locals never alias one mutable object")
     run_contracts(ctx, cs, reg, workloads=workloads(), concrete_env=CONCRETE_ENV)
+    from vf.proofs import c02
+
+    reg3, cs3 = c02.build()
+    run_contracts(ctx, cs3, reg3, workloads=c02.workloads(), concrete_env=c02.CONCRETE_ENV)
